@@ -481,3 +481,189 @@ def _wrap_populate(cls, obs):
         return r
 
     cls.populate = populate
+
+
+# ---------------------------------------------------------------------------
+# C11: file-system interposition and kill injection inside checkpoint writes
+
+
+class FsFaults:
+    """Records, or kills inside, the file operations of the n-th checkpoint
+    (utils.io.safe_file_dump) or the n-th weights save (FlowModel.save_weights).
+
+    mode "record": the operations of every call are logged as events.
+    mode "kill":   target = ("ckpt" | "weights", nth), op = index of the
+                   operation BEFORE which the process dies (len(ops) = after
+                   the last one); for a write operation `frac` in [0, 1) writes
+                   that fraction of the bytes first (a torn file).
+    """
+
+    def __init__(self, em: Emitter, obs, mode="record", target=None, op=None, frac=None):
+        self.em = em
+        self.obs = obs
+        self.mode = mode
+        self.target = tuple(target) if target else None
+        self.op = op
+        self.frac = frac
+        self.kind = None          # kind of the call in progress
+        self.count = {"ckpt": 0, "weights": 0}
+        self.ops = []
+        self.armed = False
+
+    # -- call boundaries
+    def begin(self, kind):
+        self.count[kind] += 1
+        self.kind = kind
+        self.ops = []
+        self.armed = (self.mode == "kill" and self.target == (kind, self.count[kind]))
+        self._maybe_kill("enter")
+
+    def end(self):
+        self._maybe_kill("return")      # after the last operation
+        if self.mode == "record":
+            self.em.emit("fs_ops", kind=self.kind, nth=self.count[self.kind], ops=list(self.ops))
+        self.kind = None
+        self.armed = False
+
+    # -- one operation
+    def _maybe_kill(self, name, write_prefix=None):
+        """Called BEFORE performing operation `name`."""
+        idx = len(self.ops)
+        if self.armed and idx == self.op:
+            if write_prefix is not None:
+                write_prefix()
+            self.em.emit("fault", kind=self.kind, nth=self.count[self.kind], op=idx, before=name,
+                         frac=self.frac, ops_done=list(self.ops))
+            os._exit(137)
+        if name not in ("enter", "return"):
+            self.ops.append(name)
+
+    def install(self):
+        import builtins
+        import shutil as real_shutil
+
+        import torch
+
+        import nessai.flowmodel.base as fbase
+        import nessai.utils.io as nio
+
+        ff = self
+
+        class ShutilProxy:
+            def __getattr__(self, k):
+                return getattr(real_shutil, k)
+
+            def move(self, src, dst, *a, **k):
+                if ff.kind is not None:
+                    ff._maybe_kill("move:" + os.path.basename(str(src)) + "->" + os.path.basename(str(dst)))
+                return real_shutil.move(src, dst, *a, **k)
+
+        proxy = ShutilProxy()
+        nio.shutil = proxy
+        fbase.shutil = proxy
+
+        class FileProxy:
+            def __init__(self, f, name):
+                self.f = f
+                self.name = name
+
+            def write(self, data):
+                if ff.kind is not None:
+                    def prefix():
+                        n = int(len(data) * (ff.frac or 0.0))
+                        self.f.write(data[:n])
+                        self.f.flush()
+                    ff._maybe_kill("write:" + self.name, write_prefix=prefix)
+                return self.f.write(data)
+
+            def __getattr__(self, k):
+                return getattr(self.f, k)
+
+            def __enter__(self):
+                return self
+
+            def __exit__(self, *exc):
+                if ff.kind is not None:
+                    self.f.flush()
+                    ff._maybe_kill("close:" + self.name)
+                return self.f.__exit__(*exc)
+
+        def open_proxy(path, mode="r", *a, **k):
+            if ff.kind is not None and "w" in mode:
+                ff._maybe_kill("open:" + os.path.basename(str(path)))
+                return FileProxy(builtins.open(path, mode, *a, **k), os.path.basename(str(path)))
+            return builtins.open(path, mode, *a, **k)
+
+        nio.open = open_proxy
+
+        real_save = torch.save
+
+        def save(obj, f, *a, **k):
+            if ff.kind == "weights" and isinstance(f, (str, os.PathLike)):
+                name = os.path.basename(str(f))
+                ff._maybe_kill("open:" + name)
+                # torch.save = open(truncate) + write + close: emulate the torn file
+                # by saving and truncating afterwards
+                def prefix():
+                    real_save(obj, f, *a, **k)
+                    size = os.path.getsize(f)
+                    with builtins.open(f, "r+b") as fh:
+                        fh.truncate(int(size * (ff.frac or 0.0)))
+                ff._maybe_kill("write:" + name, write_prefix=prefix)
+                r = real_save(obj, f, *a, **k)
+                ff._maybe_kill("close:" + name)
+                return r
+            return real_save(obj, f, *a, **k)
+
+        torch.save = save
+
+        # call boundaries
+        from nessai.samplers import base as sbase
+        inner_dump = sbase.safe_file_dump
+
+        def safe_file_dump(obj, filename, *a, **k):
+            if ff.obs.ns is not None and obj is ff.obs.ns:
+                ff.em.emit("ckpt_begin", digest=ff.obs.deep_digest(obj), flow_w=flow_digest(obj),
+                           live=ff.obs.live_state(obj), **ff.obs.tails(obj), **ff.obs.counts(obj))
+                ff.begin("ckpt")
+                try:
+                    return inner_dump(obj, filename, *a, **k)
+                finally:
+                    ff.end()
+            return inner_dump(obj, filename, *a, **k)
+
+        sbase.safe_file_dump = safe_file_dump
+        # utils.io.safe_file_dump is what inner_dump (the observer's wrapper) calls
+
+        orig_save_weights = fbase.FlowModel.save_weights
+
+        def save_weights(fm, weights_file):
+            ff.em.emit("weights_begin", flow_w=state_digest(fm.model))
+            ff.begin("weights")
+            try:
+                r = orig_save_weights(fm, weights_file)
+            finally:
+                ff.end()
+            ff.em.emit("weights_saved", flow_w=state_digest(fm.model))
+            return r
+
+        fbase.FlowModel.save_weights = save_weights
+
+
+def state_digest(module):
+    import hashlib
+
+    if module is None:
+        return 0
+    h = hashlib.blake2b(digest_size=8)
+    for k, v in sorted(module.state_dict().items()):
+        h.update(k.encode())
+        h.update(v.detach().cpu().numpy().tobytes())
+    return int.from_bytes(h.digest(), "big") & 0x3FFFFFFFFFFFFFFF
+
+
+def flow_digest(ns):
+    fp = getattr(ns, "_flow_proposal", None)
+    flow = getattr(fp, "flow", None)
+    model = getattr(flow, "model", None)
+    return state_digest(model) if model is not None else 0
